@@ -7,7 +7,9 @@
   evaluated here in numpy longdouble (independent of the Lean model and of hcipy's kernels);
 * correspondence: sizes / cut-outs / output grid / weights reported by FastFourierTransform against the
   model's `plan`, the grid-consistency predicate on the reported sizes, and the modelled pipeline on
-  impulses (exact phases in turns) against the real forward/backward.
+  impulses (exact phases in turns) against the real forward/backward; the class make_fourier_transform
+  returns against the model's decision function (`select`, both outcomes of the planner's float
+  comparison where it is consulted) and get_fft_parameters per axis against the exact model (`fftparams`).
 """
 import numpy as np
 from harness.common import rat, rat_list, Fraction, MachineryError
@@ -415,9 +417,18 @@ def oracle_case(case, thorough=False, want_obs=False):
                 ft = thunk()
             except Exception as e:  # noqa
                 bad.append((cls_of(name) + '-construct-raises', '%s: constructing raised %s: %s' % (name, type(e).__name__, e)))
+                if name.startswith('auto') and isinstance(e, ValueError):
+                    obs.setdefault('auto', {})[name] = 'raises'
                 continue
             og = ft.output_grid
             info = {}
+            if name.startswith('auto'):
+                obs.setdefault('auto', {})[name] = type(ft).__name__
+                if name == 'auto-grid':
+                    try:
+                        obs['detected'] = bool(hcipy.fourier.is_fft_grid(out_grid, in_grid))
+                    except Exception as e:  # noqa
+                        obs['detected'] = '%s: %s' % (type(e).__name__, e)
             if isinstance(ft, hcipy.FastFourierTransform):
                 M = np.array(ft.internal_shape[::-1], dtype='float64')
                 prod = og.delta * M * in_grid.delta
@@ -542,6 +553,94 @@ def correspondence_requests(case, ft):
     return reqs
 
 
+METHOD_OF = {'FastFourierTransform': 'fft', 'MatrixFourierTransform': 'mft', 'NaiveFourierTransform': 'naive', 'raises': 'raises'}
+
+
+def selection_requests(case, obs):
+    """The class make_fourier_transform returned vs the model's decision function.  The planner's
+    comparison `fft > mft` is a float decision: the request is sent for both outcomes and the
+    implementation's class has to be among the answers; where the code does not consult the planner
+    (three dimensions, an output grid that is not an FFT grid) the two answers have to coincide."""
+    reqs = []
+    ndim = len(case['N'])
+    in_kind = case.get('in_kind', 'regular')
+    for name, clsname in sorted(obs.get('auto', {}).items()):
+        if name == 'auto-q':
+            out = 'none'
+        elif case['family'] == 'fft':
+            out = 'fftgrid'          # the output grid of a FastFourierTransform on the same input (fft_grid_roundtrip)
+        else:
+            out = case['out']['kind']    # generic spacing (dyadic, in radians): 2π/(δ·Δ) is irrational, never an FFT grid
+        deterministic = ndim > 2 or out not in ('none', 'fftgrid')
+        lines = ['C01 select %s 1 %d %s %d' % (in_kind, ndim, out, cheaper) for cheaper in (1, 0)]
+        impl = METHOD_OF.get(clsname, clsname)
+        detected = obs.get('detected') if name == 'auto-grid' else None
+
+        def chk(rs, impl=impl, out=out, deterministic=deterministic, detected=detected, name=name):
+            answers = []
+            for r in rs:
+                if r.startswith('ok '):
+                    answers.append(r[3:])
+                elif r == 'err value':
+                    answers.append('raises')
+                else:
+                    return 'model: ' + r
+            if deterministic and len(set(answers)) != 1:
+                return '%s: the model consults the planner where the code does not (%s)' % (name, answers)
+            if impl not in answers:
+                return '%s: implementation built %s, model allows %s (input %s, output %s, %d-D)' % (
+                    name, impl, sorted(set(answers)), in_kind, out, ndim)
+            if detected is not None and detected != (out == 'fftgrid'):
+                return '%s: is_fft_grid says %r for an output grid the model classifies as %s' % (name, detected, out)
+            return None
+        reqs.append((lines, chk, 'select', '%s:%s:%s:%dD->%s' % (name, in_kind, out, ndim, impl)))
+    return reqs
+
+
+def fftparams_requests(case, ft):
+    """hcipy.fourier.get_fft_parameters(fft.output_grid, input_grid) per axis vs the exact model."""
+    import hcipy
+    dTs = reported_dT(ft, case['delta'])
+    if dTs is None:
+        return []
+    ndim = len(case['N'])
+    Mos = [int(m) for m in ft.shape_out[::-1]]
+    lines = []
+    for d in range(ndim):
+        zeroT = -dTs[d] * (Mos[d] // 2)
+        lines.append('C01 fftparams %d %s %d %s %s %s' % (case['N'][d], rat(case['delta'][d]), Mos[d], rat(dTs[d]), rat(zeroT), rat(case['shift'][d])))
+    try:
+        q, fov, shift = hcipy.fourier.get_fft_parameters(ft.output_grid, ft.input_grid)
+        q, fov, shift = (np.ones(ndim) * np.asarray(v, dtype='float64') for v in (q, fov, shift))
+        err = None
+    except ValueError as e:
+        err = str(e)
+
+    def chk(rs):
+        for d, r in enumerate(rs):
+            if err is not None:
+                if r != 'err value':
+                    return 'get_fft_parameters raised ValueError (%s) on the output grid of a FastFourierTransform, model: %s' % (err, r)
+                continue
+            if not r.startswith('ok '):
+                return 'axis %d: get_fft_parameters returned q=%r fov=%r shift=%r, model: %s' % (d, q[d], fov[d], shift[d], r)
+            mq, mfov, mshT, ms = (Fraction(x) for x in r.split()[1:])
+            N, Mo = case['N'][d], Mos[d]
+            if abs(q[d] - float(mq)) > 1e-9 * max(1.0, abs(float(mq))):
+                return 'axis %d: q implementation %r, model %s' % (d, float(q[d]), mq)
+            mshift = float(TWO_PI_LD * LD(mshT.numerator) / LD(mshT.denominator) + LD(ms.numerator) / LD(ms.denominator))
+            if abs(shift[d] - mshift) > 1e-9 * max(1.0, abs(mshift)):
+                return 'axis %d: shift implementation %r, model %r' % (d, float(shift[d]), mshift)
+            M = mq * N
+            if M.denominator != 1 or (M * mfov).__floor__() != Mo:
+                return 'axis %d: the model parameters q=%s fov=%s do not reproduce Mo=%d' % (d, mq, mfov, Mo)
+            if int(np.round(q[d] * N) * fov[d]) != Mo:
+                return 'axis %d: the reconstructed q=%r fov=%r give int(round(q N)·fov) = %d points, the grid has %d' % (
+                    d, float(q[d]), float(fov[d]), int(np.round(q[d] * N) * fov[d]), Mo)
+        return None
+    return [(lines, chk, 'fftparams')]
+
+
 def impulse_requests(case, ft_by_cfg, rng_seed):
     """Modelled pipeline on impulses vs the real forward/backward (scalar complex128 impulses)."""
     import hcipy
@@ -652,6 +751,62 @@ def count_case(ctx, case, obs):
             ctx.count('non-square')
 
 
+# ---------------------------------------------------------------------------------------------
+# make_fourier_transform on grids that only *look like* FFT grids (defect class D63)
+
+EDGE_CASES = [
+    {'family': 'select-edge', 'kind': 'polar', 'N': [8, 6], 'delta': [0.25, 0.5], 'zero': [-1.0, -1.5], 'q': 2.0, 'fov': 0.5, 'seed': 11},
+    {'family': 'select-edge', 'kind': 'polar', 'N': [5, 7], 'delta': [0.5, 0.25], 'zero': [-1.0, -0.75], 'q': 1.0, 'fov': 1.0, 'seed': 12},
+    {'family': 'select-edge', 'kind': 'ndim', 'N': [8, 6], 'delta': [0.25, 0.5], 'zero': [-1.0, -1.5], 'q': 2.0, 'fov': 0.5, 'seed': 13},
+    {'family': 'select-edge', 'kind': 'ndim', 'N': [4, 4, 3], 'delta': [0.5, 0.5, 1.0], 'zero': [-1.0, -1.0, -1.0], 'q': 1.0, 'fov': 1.0, 'seed': 14},
+]
+
+
+def edge_case_oracle(case):
+    """A regular polar grid with the numbers of an FFT grid, and a regular grid with fewer axes than the
+    input: make_fourier_transform must either raise ValueError or return a transform onto the grid that
+    was requested (and then evaluate the defining sum there)."""
+    import hcipy
+    bad = []
+    ndim = len(case['N'])
+    g = hcipy.CartesianGrid(hcipy.RegularCoords(np.array(case['delta']), np.array(case['N']), np.array(case['zero'])))
+    og = hcipy.make_fft_grid(g, case['q'], case['fov'])
+    rng = np.random.default_rng(case['seed'])
+    f = hcipy.Field(rng.normal(size=g.size) + 1j * rng.normal(size=g.size), g)
+    if case['kind'] == 'polar':
+        req = hcipy.PolarGrid(hcipy.RegularCoords(og.delta, og.dims, og.zero))
+        key = 'selection-noncartesian-fft-grid'
+    else:
+        req = hcipy.CartesianGrid(hcipy.RegularCoords(og.delta[:1], og.dims[:1], og.zero[:1]))
+        key = 'selection-ndim-mismatch'
+    try:
+        ft = hcipy.make_fourier_transform(g, req)
+    except ValueError:
+        return bad
+    except Exception as e:  # noqa
+        return [(key, 'make_fourier_transform raised %s: %s' % (type(e).__name__, e))]
+    og2 = ft.output_grid
+    same = og2 is req or (og2.ndim == req.ndim and og2.size == req.size and type(og2) is type(req)
+                          and np.allclose(np.array(og2.coords), np.array(req.coords), rtol=1e-12, atol=1e-12))
+    if not same:
+        return [(key, 'make_fourier_transform(%d-D Cartesian grid, %s) returned a %s onto a %s with %d axes and %d points instead of the requested grid (%d axes, %d points)' % (
+            ndim, type(req).__name__ + (' with FFT-grid numbers' if case['kind'] == 'polar' else ' with fewer axes'), type(ft).__name__,
+            type(og2).__name__, og2.ndim, og2.size, req.ndim, req.size))]
+    if req.ndim == ndim:
+        cart = req.as_('cartesian')
+        o_full = [np.asarray(c, dtype=LD) for c in cart.coords]
+        in_sep = [LD(case['zero'][d]) + LD(case['delta'][d]) * np.arange(case['N'][d], dtype=LD) for d in range(ndim)]
+        w = LD(1)
+        for dl in case['delta']:
+            w = w * LD(dl)
+        ref = ref_sum(None, full_coords(in_sep), w, None, o_full, np.asarray(f).reshape(1, -1), -1, ndim)
+        res = np.asarray(ft.forward(f)).reshape(1, -1)
+        err = float(np.abs(res.astype(CLD) - ref).max())
+        if not err <= 1e-9 * max(1.0, float(np.abs(ref).max())):
+            bad.append((key, '%s.forward on the requested grid differs from the defining sum by %.3g' % (type(ft).__name__, err)))
+    return bad
+
+
 def run(ctx, prop='C01'):
     ctx.rule = ('grid pairs and fields from VERIF_SEED: directed corpus first (N=87,q=2.5; size-1 axes; 3-D; tensor fields), then random '
                 'cases: 1-3 dimensions, sizes from {1,2,3,4,5,7,8,9,16,17,31,64,87,101} or uniform, dyadic spacings/offsets/shifts, '
@@ -661,7 +816,9 @@ def run(ctx, prop='C01'):
                 'Every applicable implementation (FFT both shift settings and the configured one, MFT switches, NFT both, Zoom, '
                 'make_fourier_transform by parameters and by grid) is compared, forward and backward, with the defining sum evaluated '
                 'in longdouble. Correspondence: reported sizes/cut-outs/output grid/weights vs the model plan, grid consistency of the '
-                'reported sizes, modelled pipeline on impulses vs the real transform (both settings, both directions). '
+                'reported sizes, modelled pipeline on impulses vs the real transform (both settings, both directions); the class '
+                'make_fourier_transform returns vs the model decision (both planner outcomes where the planner is consulted, equality '
+                'elsewhere) and get_fft_parameters on the FFT output grid vs the exact per-axis model. '
                 'Non-trivial = more than one input sample; distinct by (family, sizes, tensor shape, dtype, field kind, shifted axes).')
     ctx.assumptions += ['numpy/scipy fftn/ifftn compute the DFT / inverse DFT with 1/M normalisation; fftshift/ifftshift roll by ±(M//2)',
                         'BLAS gemm and np.dot compute matrix products', 'x86 longdouble (64-bit mantissa) reference sums are exact to 1e-15 relative',
@@ -671,6 +828,11 @@ def run(ctx, prop='C01'):
     cases = [dict(c) for c in DIRECTED]
     for i in range(n):
         cases.append(gen_case(ctx.rng, big=thorough and i % 4 == 0))
+    for ec in EDGE_CASES:
+        for key, what in edge_case_oracle(ec):
+            ctx.violation(key, what, ec)
+        ctx.count('select-edge:' + ec['kind'])
+        ctx.case(None, ('select-edge', ec['kind'], tuple(ec['N'])))
     lines = []
     checks = []
     worst = {}
@@ -684,11 +846,18 @@ def run(ctx, prop='C01'):
         size = int(np.prod(case['N']))
         ctx.case({k: case[k] for k in ('family', 'N', 'q', 'fov', 'shift', 'tensor', 'dtype')}, case_signature(case, obs) if size > 1 else None)
         ft = obs.get('fft')
+        for ls, chk, stream, label in selection_requests(case, obs):
+            ctx.count('select:' + label)
+            checks.append((len(lines), len(ls), chk, case, stream))
+            lines += ls
         if ft is not None and case['family'] == 'fft':
             import hcipy
             for line, chk, stream in correspondence_requests(case, ft):
                 checks.append((len(lines), 0, chk, case, stream))
                 lines.append(line)
+            for ls, chk, stream in fftparams_requests(case, ft):
+                checks.append((len(lines), len(ls), chk, case, stream))
+                lines += ls
             if int(np.prod(ft.internal_shape)) <= (400000 if thorough else 60000):
                 q, fov, shift = np.array(case['q']), np.array(case['fov']), np.array(case['shift'])
                 try:
@@ -716,7 +885,10 @@ def run(ctx, prop='C01'):
 
 
 def replay(ctx, case):
-    bad, obs = oracle_case(case, thorough=True)
+    if case.get('family') == 'select-edge':
+        bad = edge_case_oracle(case)
+    else:
+        bad, obs = oracle_case(case, thorough=True)
     for key, what in bad:
         print('  fails:', key, '-', what)
     return not bad
